@@ -52,11 +52,22 @@ def gen(rng, idx, tier):
             ops.append(dict(e="meas", w=str(rng.choice(["1", "2", "c"])), k=int(rng.choice([1, 1, 2, 3])),
                             mask=int(rng.integers(0, 8)) if rng.random() < 0.3 else 7,
                             pre_resp=bool(rng.random() < 0.15)))
-    return dict(cfg=cfg, a=float(np.round(rng.uniform(-2, 2), 3)), b=float(np.round(rng.uniform(-2, 2), 3)),
+    a, b = float(np.round(rng.uniform(-2, 2), 3)), float(np.round(rng.uniform(-2, 2), 3))
+    if rng.random() < 0.3:
+        # linearity holds at every scale: tiny / huge scalars expose absolute thresholds applied to the seed
+        a *= 10.0 ** int(rng.integers(-12, 5))
+        b *= 10.0 ** int(rng.integers(-12, 5))
+    return dict(cfg=cfg, a=a, b=b,
                 in0=int(rng.integers(1 << 30)), w1=int(rng.integers(1 << 30)), w2=int(rng.integers(1 << 30)), ops=ops)
 
 
-def close(x, y, tol):
+def amax(x):
+    return 0.0 if x is None or np.size(x) == 0 else float(np.max(np.abs(x)))
+
+
+def close(x, y, tol, scale=None):
+    """ |x - y| <= tol * scale, where `scale` is the magnitude of the terms the expected value is built from (so that the
+    comparison is relative at every scale, yet robust against cancellation); default scale: max(1, |x|, |y|) """
     if x is None and y is None:
         return True, 0.0
     if x is None:
@@ -66,7 +77,7 @@ def close(x, y, tol):
     x, y = np.asarray(x), np.asarray(y)
     if x.shape != y.shape:
         return False, float("inf")
-    sc = max(1.0, float(np.max(np.abs(x))) if x.size else 1.0, float(np.max(np.abs(y))) if y.size else 1.0)
+    sc = max(1.0, amax(x), amax(y)) if scale is None else max(scale, 1e-290)
     err = float(np.max(np.abs(x - y))) / sc if x.size else 0.0
     return err <= tol, err
 
@@ -209,7 +220,7 @@ def run(case):
             for j in range(1, k):
                 for ii in range(len(ins)):
                     g1 = G[0][ii]
-                    ok, err = close(G[j][ii], None if g1 is None else (j + 1) * g1, tol)
+                    ok, err = close(G[j][ii], None if g1 is None else (j + 1) * g1, tol, scale=(j + 1) * max(amax(g1), amax(G[j][ii]) / (j + 1)))
                     res["margins"]["additivity_err_over_tol"] = max(res["margins"].get("additivity_err_over_tol", 0.0), err / tol)
                     if not ok:
                         viol("additivity", f"{j + 1} calls of sensitivity() without reset do not give {j + 1} times the first "
@@ -246,7 +257,7 @@ def run(case):
         if key in table:
             probe("repeat_after_reset_checked")
             for ii in range(len(ins)):
-                ok, err = close(G[0][ii], table[key][ii], tol * 10)
+                ok, err = close(G[0][ii], table[key][ii], tol * 10, scale=max(amax(G[0][ii]), amax(table[key][ii])))
                 if not ok:
                     viol("repeatability", f"the same seed after reset() gives a different contribution on input {ii} "
                          f"(rel err {err:.2e})", at, feats=[f"input={ii}"])
@@ -261,7 +272,7 @@ def run(case):
             g1, g2, gc = table[("1", mask)], table[("2", mask)], table[("c", mask)]
             for ii in range(len(ins)):
                 exp = zoo.lincomb(a, g1[ii], b, g2[ii])
-                ok, err = close(gc[ii], exp, tol)
+                ok, err = close(gc[ii], exp, tol, scale=max(abs(a) * amax(g1[ii]) + abs(b) * amax(g2[ii]), amax(gc[ii])))
                 res["margins"]["linearity_err_over_tol"] = max(res["margins"].get("linearity_err_over_tol", 0.0), err / tol)
                 if not ok:
                     viol("linearity", f"g({a}*w1+{b}*w2) != {a}*g(w1)+{b}*g(w2) on input {ii} (rel err {err:.2e}, mask={mask})",
